@@ -628,7 +628,7 @@ func cmdCheck(args []string) int {
 		"go/ssa (x/tools v0.29.0) as the meaning of the Go source",
 		"SMT solvers z3 4.8.12, z3 5.1.0, cvc5 1.0.3 (an obligation counts as discharged when z3 4.8.12 or cvc5 answers unsat, or z3 5.1.0 answers unsat in two runs with different seeds; the z3 solvers get the query without set-logic)",
 		"machine integers treated as mathematical integers (no overflow)",
-		"float64 and strconv uninterpreted",
+		"float64 and strconv uninterpreted (float64 order is an uninterpreted relation, == is term equality: NaN is not modelled)",
 		"strings: abstract totally ordered sort with uninterpreted concatenation",
 		"allocation never fails; no goroutines inside the library",
 		"sequence lemma library /verif/spec/seq_Str.smt2 (bag/sorted lemmas, checked against definitions by selftest)",
